@@ -21,10 +21,11 @@ def make_recorder(W, log):
             if calls["fail_at"] and calls["n"] == calls["fail_at"]:
                 raise RuntimeError("stub: cannot be fitted on this window")
 
-        def __init__(self, p=0, nan_last=False, scribbles=False):
+        def __init__(self, p=0, nan_last=False, scribbles=False, positive=False):
             self.p = p
             self.nan_last = nan_last
             self.scribbles = scribbles
+            self.positive = positive  # forecasts |F| + 1 (> 0): percentage errors are then defined
             super().__init__()
 
         def fit(self, y, X=None, fh=None, **kw):
@@ -46,6 +47,8 @@ def make_recorder(W, log):
             labs = L(fh.to_absolute(self._cut).to_pandas())
             log.append({"op": "predict", "labels": labs, "xidx": None if X is None else L(X.index), "cutoff": S(self._cut), "p": S(self.p)})
             vals = [W.uf("forecast", [self.p, self._cut, l], "iii>r") for l in labs]
+            if getattr(self, "positive", False):
+                vals = [abs(v) + 1 for v in vals]
             if getattr(self, "nan_last", False) and len(vals) > 1:
                 vals[-1] = float("nan")  # a forecaster that cannot forecast its last requested step
             return pd.Series(vals, index=pd.Index(labs))
@@ -122,9 +125,19 @@ class C07(Harness):
                         out.append({"name": "%s-%s-k%d-%s" % (sk, strat, K, "X" if withX else "noX"), "kind": sk, "strategy": strat, "K": K, "withX": withX, "N": b["n_max"], "cost": K + (1 if sk != "single" else 0)})
         # exogenous rows with a small symbolic index origin (|s0| <= 3): code that mixes up labels and positions turns
         # the origin into an array length, which the unbounded origin of the cells above cannot enumerate
+        # no scoring given: the documented default is the symmetric mean absolute percentage error (the library's real
+        # metric code runs; positive observations and forecasts keep it defined)
+        out.append({"name": "sliding-refit-k2-noX-default-scoring", "kind": "sliding", "strategy": "refit", "K": 2, "withX": False, "N": min(b["n_max"], 5), "default_scoring": True, "cost": 3})
         for sk, strat in (("expanding", "update"), ("sliding", "refit")):
             out.append({"name": "%s-%s-k1-X-origin" % (sk, strat), "kind": sk, "strategy": strat, "K": 1, "withX": True, "N": min(b["n_max"], 5), "origin": 3, "cost": 2})
         return out
+
+    def overrides(self, kind, cell):
+        if cell.get("default_scoring"):
+            from .c06 import HARNESS as _c06
+
+            return _c06.overrides(kind, {"kind": "fn"})
+        return None
 
     def inputs(self, ctx, cell):
         N, K = cell["N"], cell["K"]
@@ -150,6 +163,12 @@ class C07(Harness):
         inp["fh"] = hs
         if cell["withX"]:
             inp["x"] = fresh_reals(ctx, "x", nn)
+        if cell.get("default_scoring"):
+            for v in inp["y"]:
+                ctx.assume(v > 0)
+            inp.update(return_data=False, prefitted=False, nan_last=False, fail_second=False, range_index=True)
+            ctx.assume(inp["g"] == 1)
+            return inp
         inp["return_data"] = bool(ctx.fresh_bool("return_data"))
         inp["prefitted"] = bool(ctx.fresh_bool("prefitted"))  # the forecaster handed to evaluate() was fitted on the whole series before
         inp["nan_last"] = K > 1 and inp["prefitted"] and not inp["return_data"]  # (tied to other flags to keep the path count)
@@ -184,7 +203,9 @@ class C07(Harness):
         log = []
         Rec = make_recorder(W, log)
         sc = make_score(W, gib=bool(inp["return_data"]))  # the scorer's direction flag must not change the reported value
-        fc = Rec(nan_last=bool(inp.get("nan_last")), scribbles=(not inp.get("prefitted")) and not inp.get("return_data"))  # (with return_data the fold objects are handed back: left alone)
+        if cell.get("default_scoring"):
+            sc = None
+        fc = Rec(positive=bool(cell.get("default_scoring")), nan_last=bool(inp.get("nan_last")), scribbles=(not inp.get("prefitted")) and not inp.get("return_data"))  # (with return_data the fold objects are handed back: left alone)
         if inp.get("prefitted"):
             fc.fit(y, X)
             del log[:]
@@ -206,7 +227,8 @@ class C07(Harness):
         rows = []
         cols = list(res.columns)
         for i in range(len(res)):
-            r = {"score": S(res["test_stub"].iloc[i]), "len": S(res["len_train_window"].iloc[i]), "cutoff": S(res["cutoff"].iloc[i])}
+            scol = "test_stub" if sc is not None else [c for c in cols if str(c).startswith("test_")][0]
+            r = {"score": S(res[scol].iloc[i]), "len": S(res["len_train_window"].iloc[i]), "cutoff": S(res["cutoff"].iloc[i])}
             if inp["return_data"]:
                 for c in ("y_train", "y_test", "y_pred"):
                     s = res[c].iloc[i]
@@ -234,7 +256,7 @@ class C07(Harness):
             return
         rows, splits, log = out["rows"], out["splits"], out["log"]
         P.check("one-row-per-split", len(rows) == len(splits) and len(splits) >= 1)
-        want_cols = {"test_stub", "fit_time", "pred_time", "len_train_window", "cutoff"} | ({"y_train", "y_test", "y_pred"} if inp["return_data"] else set())
+        want_cols = {"test_MeanAbsolutePercentageError" if cell.get("default_scoring") else "test_stub", "fit_time", "pred_time", "len_train_window", "cutoff"} | ({"y_train", "y_test", "y_pred"} if inp["return_data"] else set())
         P.check("returned-data", set(out["cols"]) == want_cols)
         if len(rows) != len(splits):
             return
@@ -272,6 +294,11 @@ class C07(Harness):
             if inp.get("nan_last") and len(ypred) > 1:
                 ypred[-1] = float("nan")
             a = ytrue + ypred
+            if cell.get("default_scoring"):
+                yp1 = [abs(v) + 1 for v in ypred]
+                smape = sum(2 * abs(t_ - p_) / (abs(t_) + abs(p_)) for t_, p_ in zip(ytrue, yp1)) / len(ytrue)
+                P.eq("score-is-metric(y_true,y_pred)", row["score"], smape, {"what": "default scoring = symmetric MAPE"})
+                continue
             P.eq("score-is-metric(y_true,y_pred)", row["score"], score_expr(W, a))
             if want_op == "update":
                 P.check(lab, call.get("update_params") is True, {"what": "the forecaster is updated with parameter re-estimation (update's default)", "update_params": call.get("update_params")})
